@@ -29,11 +29,12 @@ def run_cb(sess, spec, K=2, loop_bound=3, timeout_s=1800, max_paths=3000000, sce
     """subject=tid (freeze mode, C09): thread tid is not scheduled with the others; at every gated step of the others
     (and whenever one of them finishes) the execution forks into 'every unfinished thread is suspended for ever here,
     the subject runs alone'. The subject exceeding a loop bound or reaching a blocking call is the violation."""
-    scenario = scenario or (spec.get('name') + ('@cb%d' % K if subject is None else '@frz%d' % K))
+    scenario = scenario or (spec.get('name') + ('@cb%d' % K if subject is None else '@frz%d' % K) + ('f' if spec.get('focus') else ''))
     t0 = time.time()
     eng = sess.engine(loop_bound=loop_bound, max_paths=max_paths)
     eng.auto_merge = False
     eng.log_all_atomics = True
+    eng.cb_focus = tuple(spec['focus']) if spec.get('focus') else None
     st = eng.initial_state()
 
     def seq(fn, state, thread):
